@@ -814,7 +814,9 @@ impl fmt::Display for Type<'_> {
 
         #[cfg(feature = "ast-comments")]
         if let Some(comments) = &tc.comments_after_type {
-          type_str.push_str(comments.to_string().trim_end());
+          // a comment runs to the end of the line: keep its line break, or
+          // whatever follows the first choice becomes part of the comment
+          type_str.push_str(&comments.to_string());
         }
 
         continue;
